@@ -32,6 +32,11 @@ var configCmd = &cobra.Command{
 		if len(dotSplit) != 2 {
 			return ErrInvalidArgs
 		}
+		// the config file is line based: an empty section name or a line break in any part
+		// would write a file that no command can load any more
+		if dotSplit[0] == "" || strings.Contains(args[0], "\n") || strings.Contains(args[1], "\n") {
+			return ErrInvalidArgs
+		}
 
 		// get global flag
 		isGlobal, err := cmd.Flags().GetBool("global")
